@@ -28,6 +28,7 @@ COMMITTERS = set()
 
 EXPLANATION += ' (R5) no storage-layer result is discarded anywhere in the crate (one tolerated site, named, doubles as the positive example).'
 EXPLANATION += " Round 9: (R4) the destructor of Store evaluated on every state of the shared transaction: an open write transaction is committed before the store goes away; (R3) the age check only has to relate elapsed() with MAX_COMMIT_DELAY - the outcome per age is R4's."
+EXPLANATION += ' (R6, round 12) what opening a store may rewrite: exactly the four known start-up migrations run (C18.R1), each skips and writes nothing unless the table it rebuilds is empty (C18.R4), the capability migrations are no-ops on a current database (C18.R6).'
 
 
 class Effects:
@@ -545,9 +546,20 @@ def r5(ctx):
     ctx.floor("C06.R5", 2)
 
 
+def r6(ctx):
+    """"the reopened store ... shows a state the live store actually passed through": what opening a store may rewrite is bounded by
+    the four known start-up migrations - exactly those run (C18.R1 all-four-in-order: a further migration needs its own table), each
+    skips and writes nothing unless the table it rebuilds is empty (C18.R4), the capability migrations are no-ops on a current
+    database (C18.R6)"""
+    from . import C18
+    ctx.share("C06.R6", C18.r1, "C18.R1", keep=lambda k: "all-four-in-order" in k or "errors-propagate" in k, floor=2)
+    ctx.share("C06.R6", C18.r4, "C18.R4", floor=3)
+    ctx.share("C06.R6", C18.r6, "C18.R6", floor=3)
+
 def run(ctx):
     ctx.run_rule("C06.R4", r4)
     ctx.run_rule("C06.R1", r1)
     ctx.run_rule("C06.R2", r2)
     ctx.run_rule("C06.R3", r3)
     ctx.run_rule("C06.R5", r5)
+    ctx.run_rule("C06.R6", r6)
